@@ -8,10 +8,10 @@ import (
 	"fmt"
 	"io"
 	"net"
-	"syscall"
 	"os"
 	"strings"
 	"sync/atomic"
+	"syscall"
 	"time"
 
 	"github.com/gorilla/websocket"
